@@ -138,6 +138,87 @@ def export_subject(sp, with_full, captured=None):
     return preds, cos
 
 
+# ---------------------------------------------------------------------------------------------------
+# the property's "structurally depends on", stated on the exported CDG edges only (no pynguin query)
+# ---------------------------------------------------------------------------------------------------
+def reference_dependencies(co, node):
+    """Control dependencies of `node` in one exported code object: backwards over value-less edges (and edges
+    that leave artificial nodes) until an edge with a branch value that leaves a basic block."""
+    blocks = set(co["blocks"])
+    into = {}
+    for e in co["ge"]:
+        into.setdefault(e["t"], []).append(e)
+    deps, seen, todo = set(), {node}, [node]
+    while todo:
+        x = todo.pop()
+        for e in into.get(x, ()):
+            if e["l"] is not None and e["s"] in blocks:
+                deps.add((e["s"], bool(e["l"])))
+            elif e["s"] not in seen:
+                seen.add(e["s"])
+                todo.append(e["s"])
+    return deps
+
+
+def reference_structure(goals, preds, cos):
+    """Per goal: `owner` = the code object its predicate was registered for, `key` = (code object, node, value),
+    `deps` = the goal's OWN control dependencies as keys {(same code object, node, value)} (None: no branch goal
+    or the predicate's node is not in its CDG)."""
+    by_pid = {p["id"]: p for p in preds}
+    by_co = {c["co"]: c for c in cos}
+    memo, out = {}, []
+    for g in goals:
+        if g["pid"] is None or g["pid"] not in by_pid:
+            out.append({"owner": g["co"], "key": None, "deps": None})
+            continue
+        pm = by_pid[g["pid"]]
+        c = by_co.get(pm["co"])
+        deps = None
+        if c is not None and pm["node"] in c["nodes"]:
+            k = (pm["co"], pm["node"])
+            if k not in memo:
+                memo[k] = reference_dependencies(c, pm["node"])
+            deps = {(pm["co"], n, v) for n, v in memo[k]}
+        out.append({"owner": pm["co"], "key": (pm["co"], pm["node"], bool(g["val"])), "deps": deps})
+    return out
+
+
+OWN_CHAIN_CAP = 12
+
+
+def own_chain_plan(goals, preds, cos):
+    """For (up to OWN_CHAIN_CAP) goals with dependencies: the goals of its own dependency chain = everything it
+    transitively depends on through its own code object's CDG, itself excluded."""
+    ref = reference_structure(goals, preds, cos)
+    by_key = {}
+    for i, r in enumerate(ref):
+        if r["key"] is not None:
+            by_key.setdefault(r["key"], []).append(i)
+    if any(len(v) > 1 for v in by_key.values()):
+        return []  # two predicates on one node: "the" goal of a dependency is ambiguous, nothing is demanded
+    direct = {}
+    for i, r in enumerate(ref):
+        if r["deps"]:
+            if not all(k in by_key for k in r["deps"]):
+                return []  # unregistered dependency: reported by the static clauses
+            direct[i] = sorted(by_key[k][0] for k in r["deps"])
+    cands = sorted(direct)
+    if len(cands) > OWN_CHAIN_CAP:
+        step = len(cands) / OWN_CHAIN_CAP
+        cands = sorted({cands[int(j * step)] for j in range(OWN_CHAIN_CAP)})
+    plan = []
+    for g in cands:
+        anc, todo = set(), [g]
+        while todo:
+            for p in direct.get(todo.pop(), ()):
+                if p not in anc:
+                    anc.add(p)
+                    todo.append(p)
+        anc.discard(g)
+        plan.append((g, sorted(anc)))
+    return plan
+
+
 class Sol:
     """Stands for a test case chromosome: covers a fixed set of goals."""
 
@@ -159,8 +240,12 @@ class _Loop(Exception):
     pass
 
 
-def run_goals(sp, sched):
-    """The real goal pool, goal graph, goals manager and archive on `sp`; returns goals, build, trace."""
+def run_goals(sp, sched, exported=None):
+    """The real goal pool, goal graph, goals manager and archive on `sp`; returns goals, build, trace, own.
+
+    `own` (when `exported` = (preds, cos) is given): for every goal with dependencies a FRESH real `_GoalsManager`
+    is driven by solutions that cover exactly the goals of the goal's own dependency chain (as they become
+    current); listed are the goals that never became current that way."""
     import networkx as nx
     import pynguin.ga.coveragegoals as bg
     from pynguin.ga.algorithms.archive import CoverageArchive
@@ -182,13 +267,13 @@ def run_goals(sp, sched):
     try:
         gm = _GoalsManager(ffs, archive, sp)
     except KeyError:
-        return goals, {"err": "keyError"}, None
+        return goals, {"err": "keyError"}, None, None
     except RuntimeError:
-        return goals, {"err": "goalNotFound"}, None
+        return goals, {"err": "goalNotFound"}, None, None
     except AssertionError as e:
-        return goals, {"err": "sanity" if "Root branches" in str(e) else "nodeMissing"}, None
+        return goals, {"err": "sanity" if "Root branches" in str(e) else "nodeMissing"}, None, None
     except nx.NetworkXError:
-        return goals, {"err": "nodeMissing"}, None
+        return goals, {"err": "nodeMissing"}, None, None
     G = gm._graph._graph
     build = {"roots": [index[f] for f in gm._graph.root_branches],
              "children": {str(index[f]): [index[c] for c in gm._graph.get_structural_children(f)]
@@ -216,7 +301,40 @@ def run_goals(sp, sched):
             trace.append({"err": "fuel"})
             break
         trace.append(snap())
-    return goals, build, trace
+    own = None
+    if exported is not None:
+        own = {"simulated": 0, "failed": []}
+        for g, anc in own_chain_plan(goals, *exported):
+            arch = CoverageArchive(OrderedSet())
+            man = _GoalsManager(ffs, arch, sp)
+            chain, covered = set(anc), set()
+            ever = {index[f] for f in man.current_goals}
+            for _ in range(len(anc) + 2):
+                new = {index[f] for f in man.current_goals} & chain - covered
+                if not new or g in ever:
+                    break
+                covered |= new
+                real = arch.update
+                calls = [0]
+
+                def guarded2(solutions, real=real, calls=calls):
+                    calls[0] += 1
+                    if calls[0] > LOOP_CAP + len(goals):
+                        raise _Loop
+                    return real(solutions)
+
+                arch.update = guarded2
+                try:
+                    man.update([Sol(set(covered), index)])
+                except _Loop:
+                    break
+                finally:
+                    arch.update = real
+                ever |= {index[f] for f in man.current_goals}
+            own["simulated"] += 1
+            if g not in ever:
+                own["failed"].append({"goal": g, "chain": anc, "covered": sorted(covered)})
+    return goals, build, trace, own
 
 
 # ---------------------------------------------------------------------------------------------------
@@ -256,7 +374,7 @@ def synthetic_subject(case):
 
 
 def gen_syn(rng: random.Random, broken: bool):
-    ncos = rng.choice([1, 1, 1, 2])
+    ncos = rng.choice([1, 1, 1, 2, 2, 3])
     cos, preds = [], []
     for co in range(ncos):
         n = rng.randint(0, 9)
@@ -576,11 +694,19 @@ class Shape:
             return out, False
         raise AssertionError(k)
 
-    def function(self, name):
-        body = ["x = 0"] + self.block(0, False, self.r.randint(1, 3))
+    def function(self, name, method=False, guarded=False, inner=False, n=None):
+        """`guarded`: the first basic block ends in a conditional with a branch nested below (every such function has
+        predicates on the same block indices); `inner`: a nested function (own code object) with the same start."""
+        body = ["x = 0"]
+        if inner:
+            body = (["def inner(a, b, c, items=()):"] + self.ind(["x = 0"] + self.nested(1, False) + ["return x"])
+                    + ["x = inner(a, b, c)"])
+        if guarded:
+            body += self.nested(0, False)
+        body += self.block(0, False, self.r.randint(1, 3) if n is None else n)
         if self.r.random() < 0.8:
             body += ["return x"]
-        return [f"def {name}(a, b, c, items=()):"] + self.ind(body)
+        return [f"def {name}({'self, ' if method else ''}a, b, c, items=()):"] + self.ind(body)
 
 
 def target_source(seed: int):
@@ -589,9 +715,44 @@ def target_source(seed: int):
     sh = Shape(rng)
     lines = ["def g(v):", "    return v", ""]
     names = []
-    for i in range(rng.choice([1, 1, 2])):
-        lines += sh.function(f"f{i}") + [""]
-        names.append(f"f{i}")
+    layout = rng.choice(["plain", "plain", "plain", "twins", "family", "family"])
+    if layout == "plain":
+        for i in range(rng.choice([1, 1, 2])):
+            lines += sh.function(f"f{i}") + [""]
+            names.append(f"f{i}")
+    elif layout == "twins":
+        # the same function two or three times (same shape = same block indices, same predicate positions), the
+        # later copies now and then with one more leading / one fewer trailing statement
+        state, tmp = rng.getstate(), sh.tmp
+        copies = rng.choice([2, 2, 2, 3])
+        variants = [rng.choice(["same", "same", "lead", "cut"]) for _ in range(copies)]
+        after = None
+        for i in range(copies):
+            rng.setstate(state)
+            sh.tmp = tmp
+            fn = sh.function(f"f{i}")
+            after = after or rng.getstate()
+            if i and variants[i] == "lead":
+                fn = [fn[0], "    a = g(a)"] + fn[1:]
+            elif i and variants[i] == "cut" and len(fn) > 3 and not fn[-1].startswith("     "):
+                fn = fn[:-1]
+            lines += fn + [""]
+            names.append(f"f{i}")
+        rng.setstate(after)
+    else:
+        # several code objects that all start with a guard and a branch nested below it: functions, methods of a
+        # class, a nested function
+        k = rng.choice([2, 2, 3, 4])
+        n_methods = rng.choice([0, 0, 1, 2]) if k > 2 else rng.choice([0, 0, 2])
+        sh.maxdepth = 2
+        for i in range(k - n_methods):
+            lines += sh.function(f"f{i}", guarded=rng.random() < 0.85, inner=rng.random() < 0.2, n=1) + [""]
+            names.append(f"f{i}")
+        if n_methods:
+            lines += ["class K:"]
+            for i in range(n_methods):
+                lines += sh.ind(sh.function(f"m{i}", method=True, guarded=rng.random() < 0.85, n=1)) + [""]
+                names.append(f"K.m{i}")
     only_cover, no_cover = [], []
     k = rng.random()
     if k < 0.08:
@@ -732,9 +893,10 @@ class C07(PropertyCheck):
         if kind == "syn":
             sp = synthetic_subject(case)
             preds, cos = export_subject(sp, with_full=False)
-            goals, build, trace = run_goals(sp, case["sched"])
+            goals, build, trace, own = run_goals(sp, case["sched"], (preds, cos))
+            self.count("code-objects-with-predicates:" + str(min(len({p["co"] for p in preds}), 3)))
             return {"goals": goals, "preds": preds, "cos": cos, "sched": case["sched"], "build": build,
-                    "trace": trace}
+                    "trace": trace, "own": own}
         import instr
         if kind == "mod":
             src, only_cover, no_cover, mode = module_source(case["seed"])
@@ -760,7 +922,7 @@ class C07(PropertyCheck):
             sched = case.get("sched")
             if sched is None:
                 sched = gen_sched(random.Random(case.get("sched_seed", 0)), ngoals)
-            goals, build, trace = run_goals(sp, sched)
+            goals, build, trace, own = run_goals(sp, sched, (preds, cos))
         finally:
             instr.cleanup(d, mod)
         self.count("removed-nodes:" + ("yes" if any(c["removed"] for c in cos) else "no"))
@@ -770,8 +932,11 @@ class C07(PropertyCheck):
                             for c in cos for b in (c["binfo"] or []))
         self.count("removed-block-with-pseudo-instr:" + ("yes" if mixed_removed else "no"))
         self.count(f"goals:{min(len(goals) // 10 * 10, 60)}+")
+        self.count("code-objects-with-predicates:" + str(min(len({p["co"] for p in preds}), 3)))
+        self.count("predicate-node-index-shared-by-code-objects:"
+                   + ("yes" if len({p["node"] for p in preds}) < len({(p["co"], p["node"]) for p in preds}) else "no"))
         return {"goals": goals, "preds": preds, "cos": cos, "sched": sched, "build": build, "trace": trace,
-                "src": src, "only_cover": only_cover, "no_cover": no_cover}
+                "own": own, "src": src, "only_cover": only_cover, "no_cover": no_cover}
 
     # ---- model ----
     def model_line(self, case):
@@ -902,6 +1067,41 @@ class C07(PropertyCheck):
             if lost:
                 fs.append(Failure(sig("goal-unreachable"),
                                   f"goals {lost[:6]} are not reachable from the root goals", detail=self._detail(io)))
+        # a goal's structural parents are exactly its OWN control dependencies: goals of predicates of the same
+        # code object that sit on the nodes its predicate is control dependent on (CDG edges as exported)
+        ref = reference_structure(io["goals"], io["preds"], io["cos"])
+        for g in range(n):
+            if ref[g]["deps"] is None:
+                if parents.get(g):
+                    fs.append(Failure(sig("parent-of-goal-without-dependencies"),
+                                      f"goal {g} (branch-less code object / node outside its CDG) has parents "
+                                      f"{parents[g]}", detail=self._detail(io)))
+                    break
+                continue
+            have = {ref[p]["key"] for p in parents.get(g, [])}
+            want = ref[g]["deps"]
+            if have == want:
+                continue
+            foreign = sorted(p for p in parents.get(g, []) if ref[p]["owner"] != ref[g]["owner"])
+            if foreign:
+                fs.append(Failure(sig("parent-goal-of-another-code-object"),
+                                  f"goal {g} {io['goals'][g]} of code object {ref[g]['owner']} structurally depends on "
+                                  f"goals {foreign} of code objects {sorted({ref[p]['owner'] for p in foreign})}; its "
+                                  f"predicate's control dependencies (code object, node, value) are {sorted(want)}",
+                                  detail=self._detail(io)))
+            else:
+                fs.append(Failure(sig("parents-missing" if have < want else "parents-differ-from-control-dependencies"),
+                                  f"goal {g} {io['goals'][g]}: structural parents {sorted(have, key=repr)} but its predicate is "
+                                  f"control dependent on {sorted(want)} (code object, node, value)",
+                                  detail=self._detail(io)))
+            break
+        # covering exactly a goal's own dependency chain (a test that exercises only that function) makes it current
+        if demanding and io.get("own") and io["own"]["failed"]:
+            f = io["own"]["failed"][0]
+            fs.append(Failure(sig("goal-not-current-after-own-dependency-chain-covered"),
+                              f"goal {f['goal']} {io['goals'][f['goal']]} never became current on a fresh goals manager "
+                              f"although the goals of its own dependency chain {f['chain']} were covered as they "
+                              f"became current (covered: {f['covered']})", detail=self._detail(io)))
         # along the schedule: initial goals are the roots; a goal whose dependencies are all covered is
         # current (or covered already); current goals are uncovered
         trace = io["trace"]
@@ -929,7 +1129,7 @@ class C07(PropertyCheck):
                 fs.append(Failure(sig("goal-never-becomes-current"),
                                   f"goals {sorted(set(range(n)) - set(trace[-1]['cov']))[:6]} stay uncovered although "
                                   "every goal is coverable", detail=self._detail(io)))
-        return fs[:4]
+        return fs[:5]
 
     def witnesses(self):
         """Replay the witnesses of the recorded findings on the implementation."""
